@@ -51,7 +51,7 @@ VEC_NOTE = ' Vector-level units (vec.*) fix the capacity and block size of the p
 PROPERTY_META = {
     'C01': dict(claimed=True, level='proof',
                 text='Contracts on the real vector operations (constructor, emplace_back, pop_back, erase, clear, reserve, operator[], size/empty/capacity) state the sequence model on the representation: new size, which table entry/stride each element has, that untouched elements keep address and bytes, that shifted elements keep their bytes (witness byte), that the representation invariant WF_VAR/WF_FIXED is preserved; emplace_at is proved (unbounded) to store every argument at its layout position (store/load round trip at a witness byte).',
-                note='Layout/store level is a proof for enumerated parameter lists.' + VEC_NOTE + ' std::transform over the address table is verified with a bounded unwinding (<= 6 entries) and used by contract in erase. Non-trivial value types: see C06.',
+                note='Layout/store level is a proof for enumerated parameter lists.' + VEC_NOTE + ' std::transform over the address table is verified with a bounded unwinding (<= 6 entries) and used by contract in erase. Also counted here: the conversion contracts (conv.*: the stored item equals the stored type constructed from the source item, bounded to 4 items) and, for lists of non-trivial value types, the erase clause that relocated objects are move-constructed rather than byte-copied. Other aspects of non-trivial value types: see C06.',
                 design_ref='DESIGN.md 6 C01'),
     'C09': dict(claimed=True, level='proof',
                 text='AllocatorAwarePointer copy/move/swap contracts (unbounded, 16 trait combinations) give independence of storage and exact transfer of ownership; vector-level swap and move construction are verified against contracts that say the complete representation (capacity, block, table/stride, size, fixed sizes) is exchanged resp. transferred and the moved-from vector owns nothing.',
@@ -70,7 +70,7 @@ PROPERTY_META = {
                 design_ref='DESIGN.md 6 C19'),
     'C12': dict(claimed=True, level='model_checking',
                 text='Contracts on the real BasicContiguousElement members (construction from a const and from an rvalue mutable reference, copy/move construction, destruction, copy/move assignment between elements of different varying sizes and allocators, swap) over the representation invariant WF_E: the element owns exactly one live block from an allocator equal to its own, the block holds the element, reference_ denotes the element at the start of the block; field values equal the source (witness byte; non-trivial items are copy- resp. move-constructed exactly once through the value type); the source element/vector memory is outside the assigns clause.',
-                note='Bounded: span items <= 2, blocks <= 16 storage units, loops unwound; allocator trait combinations enumerated. element = reference and reference = element are covered at the reference level (C11).',
+                note='Bounded: span items <= 2, blocks <= 16 storage units, loops unwound; allocator trait combinations enumerated. element = reference and reference = element are covered at the reference level (C11). Move assignment into a moved-from element is a separate unit; known finding D17 covers the inputs for which the source fits the stale size() of the target, the complementary inputs (unit *.grows) have to hold.',
                 design_ref='DESIGN.md 6 C12'),
     'C13': dict(claimed=True, level='model_checking',
                 text='The real ElementTraits::equal and the reference operators == / != are verified against a contract that says: result == (same span sizes AND every field value equal), with every byte of both elements (alignment padding included) nondeterministic, for lists on the memcmp path and on the element-wise path; reflexivity and symmetry are checked on the real functions. Span lengths are bounded (<= 3 items) because the comparison loops are unwound. The real vector operator== / != are under the same kind of contract (result == same number of elements AND same fixed sizes AND every field value equal, all other bytes of both blocks nondeterministic) for lists on the whole-buffer path and on the element-wise path, with capacity <= 3 and blocks of 16-32 bytes.',
